@@ -93,11 +93,13 @@ Build(op) == /\ obj' = [obj EXCEPT ![op.slot] = Obj(sc.val)]
 \* Otherwise (and for the syntaxes without a byte-exact reference) the action is a relation:
 \* some octets obs, bound to the logged bytes by the trace specification -- but a canonical
 \* syntax yields the SAME octets whenever the same abstract value is encoded again
-\* (C01 "same DER re-encoding", C06).
+\* (C01 "same DER re-encoding", C06).  PER and OER carry a time value as the text it was given in (only DER
+\* and CANONICAL-XER are required to normalise it), so for them the rule applies to canonical time texts only.
 Canonical(s) == s # "BXER"
+TextIndependent(s) == s \in {"DER", "CXER"} \/ TimeTextCanonical(RawEnv, TypeOf(sc), sc.val)
 EncodeWire(op, obs) ==
   IF ByteExact /\ ~Opaque(op.syn) THEN Enc(op.syn, TypeOf(sc), obj[op.slot].v)
-  ELSE IF Canonical(op.syn) /\ wire[op.syn] # NoWire THEN wire[op.syn]
+  ELSE IF Canonical(op.syn) /\ TextIndependent(op.syn) /\ wire[op.syn] # NoWire THEN wire[op.syn]
   ELSE obs
 Encode(op, obs) == /\ obj[op.slot].st = "val"
                    /\ wire' = [wire EXCEPT ![op.syn] = EncodeWire(op, obs)]
